@@ -1043,6 +1043,21 @@ def nested_field_fstring(node: ast.AST) -> bool:
                for v in j.values) for j in ast.walk(f.value)) for f in ast.walk(node))
 
 
+def resource_bomb(tree: ast.AST) -> bool:
+    """Could evaluating the expression build an astronomically large int (``2 ** 64 ** 7``, ``1 << 10 ** 30``)?  Integer
+    power and shift are the only operations of the grammar whose cost is not bounded by the size of the text: they are kept
+    only with an exponent / shift count free of nested arithmetic and of integer literals beyond 8 (symbolic operands,
+    floats and complex numbers are harmless).  A static rule over the text: nothing is evaluated to decide it."""
+    for node in ast.walk(tree):
+        if isinstance(node, ast.BinOp) and isinstance(node.op, (ast.Pow, ast.LShift)):
+            for sub in ast.walk(node.right):
+                if isinstance(sub, ast.BinOp) and isinstance(sub.op, (ast.Pow, ast.LShift, ast.Mult)):
+                    return True
+                if isinstance(sub, ast.Constant) and isinstance(sub.value, int) and abs(sub.value) > 8:
+                    return True
+    return False
+
+
 class ExprDefaults:
     """Draws default expressions CPython accepts and evaluates under EXPR_PRELUDE: (text, other spelling, value key)."""
 
@@ -1109,6 +1124,8 @@ class ExprDefaults:
         """Really evaluate ``text`` as a default at module level and in a class body; None when CPython refuses."""
         try:
             tree = ast.parse(text, mode="eval").body
+            if resource_bomb(tree):
+                return None
             spelled = ast.unparse(tree)
             other = spelled if spelled != text else f"({text})"
             if ast.dump(ast.parse(other, mode="eval").body) != ast.dump(tree):
@@ -1119,7 +1136,7 @@ class ExprDefaults:
             value = inspect.signature(ns["_vf_t"]).parameters["v"].default
             key = value_key(value, tree)
             key2 = value_key(inspect.signature(ns["_VfC"].f).parameters["v"].default, tree)
-        except RecursionError:
+        except (RecursionError, MemoryError):
             return None
         except Exception:  # noqa: BLE001  (SyntaxError: yield / await outside a function, walrus in a comprehension of a class ...)
             return None
@@ -1566,6 +1583,14 @@ def run_shard(spec: dict, rec) -> None:  # noqa: ANN001
         import warnings
 
         warnings.simplefilter("ignore", SyntaxWarning)  # `1.5[a]`, `x is 1`: CPython compiles them, that is all that matters here
+        try:  # safety net next to resource_bomb(): a default that would need gigabytes (`b"xy" * 255 ** 4`) raises MemoryError
+            import resource
+
+            soft, hard = resource.getrlimit(resource.RLIMIT_AS)
+            cap = 6 << 30
+            resource.setrlimit(resource.RLIMIT_AS, (cap if hard == resource.RLIM_INFINITY else min(cap, hard), hard))
+        except (ImportError, ValueError, OSError):
+            pass
         masks = [accepted_mask(render(s), rec) for s in sigs]
         breaking = [[j for j in range(len(sigs)) if masks[i] & ~masks[j]] for i in range(len(sigs))]
         expensive = {"check-api": spec["check_api"], "check-cli": spec["check_cli"]}
